@@ -6,6 +6,7 @@ import (
 	"fmt"
 	"math/rand/v2"
 	"net/http"
+	"net/netip"
 	"net/http/httptest"
 	"net/url"
 	"os"
@@ -18,6 +19,7 @@ import (
 	"time"
 
 	"github.com/AdguardTeam/AdGuardHome/internal/vutil"
+	"github.com/AdguardTeam/golibs/httphdr"
 	"github.com/AdguardTeam/golibs/netutil"
 	"github.com/AdguardTeam/golibs/timeutil"
 	"go.etcd.io/bbolt"
@@ -42,25 +44,66 @@ var (
 	c12Users []webUser
 )
 
-var c12Addrs = []string{
+// c12Peers are the RemoteAddr values (TCP peers) of the login requests.
+var c12Peers = []string{
 	"10.0.0.1:1111", "10.0.0.2:2222", "192.168.1.7:80", "[::1]:8080",
-	"[2001:db8::1]:443", "10.0.0.1:9999", "172.16.0.9:1", "203.0.113.5:65535",
+	"[2001:db8::1]:443", "10.0.0.1:9999", "127.0.0.1:5000", "203.0.113.5:65535",
 }
 
-// c12AddrKey is the oracle for netutil.SplitHost: the index of the first
-// address with the same host (address 5 is address 0 seen from another port).
-func c12AddrKey(i int) int {
-	hi, err := netutil.SplitHost(c12Addrs[i])
-	if err != nil {
-		panic(err)
-	}
-	for j := range c12Addrs {
-		if hj, _ := netutil.SplitHost(c12Addrs[j]); hj == hi {
-			return j
+// c12Univ numbers every address (host string) a limiter key can be: the
+// peers' hosts and the addresses put into proxy headers.
+var c12Univ = []string{
+	"10.0.0.1", "10.0.0.2", "192.168.1.7", "::1", "2001:db8::1", "127.0.0.1", "127.0.0.5", "203.0.113.5",
+	"172.16.0.9", "::ffff:10.0.0.1", "2001:db8::2", "10.200.0.1",
+}
+
+// c12Trusted are the trusted_proxies settings a block runs with.
+var c12Trusted = [][]string{
+	{"127.0.0.0/8", "::1/128"}, // the default
+	{"10.0.0.0/8", "2001:db8::/32"},
+	{},
+}
+
+var c12Headers = []string{httphdr.CFConnectingIP, httphdr.TrueClientIP, httphdr.XRealIP, httphdr.XForwardedFor}
+
+func c12UnivIdx(host string) int {
+	for i, u := range c12Univ {
+		if u == host {
+			return i
 		}
 	}
 
-	return i
+	return -1
+}
+
+// c12PeerKey is the oracle for netutil.SplitHost(RemoteAddr).
+func c12PeerKey(i int) int {
+	h, err := netutil.SplitHost(c12Peers[i])
+	if err != nil {
+		panic(err)
+	}
+
+	return c12UnivIdx(h)
+}
+
+// c12Request builds the login request: peer, proxy headers by mask (bit i =
+// c12Headers[i], bit 4 = a second X-Forwarded-For entry), h[i] = index of the
+// address in header i.
+func c12Request(body string, peer, mask int, h [4]int) (r *http.Request) {
+	r = httptest.NewRequest(http.MethodPost, "/control/login", strings.NewReader(body))
+	r.RemoteAddr = c12Peers[peer]
+	for i, name := range c12Headers {
+		if mask&(1<<i) == 0 {
+			continue
+		}
+		v := c12Univ[h[i]]
+		if i == 3 && mask&16 != 0 {
+			v += ", 198.51.100.77"
+		}
+		r.Header.Set(name, v)
+	}
+
+	return r
 }
 
 const c12NoCookie = "00000000000000000000000000000000"
@@ -72,6 +115,7 @@ type c12Block struct {
 	tokIDs map[string]int // cookie value -> creation index
 	ma, bm int
 	ttl    int
+	tp     int
 }
 
 func (b *c12Block) initUsers() {
@@ -79,6 +123,10 @@ func (b *c12Block) initUsers() {
 	config.AuthBlockMin = uint(b.bm)
 	config.HTTPConfig.SessionTTL = timeutil.Duration(time.Duration(b.ttl) * time.Second)
 	config.Users = slices.Clone(c12Users)
+	config.DNS.TrustedProxies = nil
+	for _, p := range c12Trusted[b.tp] {
+		config.DNS.TrustedProxies = append(config.DNS.TrustedProxies, netutil.Prefix{Prefix: netip.MustParsePrefix(p)})
+	}
 	globalContext.workDir = b.dir
 	a, err := initUsers()
 	if err != nil {
@@ -96,14 +144,7 @@ func (b *c12Block) dump() (out []string) {
 		rl.failedAuthsLock.Lock()
 		var rows [][3]int
 		for k, v := range rl.failedAuths {
-			idx := -1
-			for i, ad := range c12Addrs {
-				if h, _ := netutil.SplitHost(ad); h == k {
-					idx = i
-
-					break
-				}
-			}
+			idx := c12UnivIdx(k)
 			rows = append(rows, [3]int{idx, int(v.until.UnixNano()), int(v.num)})
 		}
 		rl.failedAuthsLock.Unlock()
@@ -179,14 +220,14 @@ func (b *c12Block) exec(f []string) (out []string) {
 
 		return []string{"ok"}
 	case "C12.login":
-		addr, good, user, slot := vutil.Atoi(f[1]), f[3] == "1", vutil.Atoi(f[4]), vutil.Atoi(f[5])
+		peer, mask := vutil.Atoi(f[1]), vutil.Atoi(f[3])
+		h := [4]int{vutil.Atoi(f[4]), vutil.Atoi(f[5]), vutil.Atoi(f[6]), vutil.Atoi(f[7])}
+		good, user, slot := f[10] == "1", vutil.Atoi(f[11]), vutil.Atoi(f[12])
 		pass := fmt.Sprintf("pass%d", user)
 		if !good {
 			pass = "wrong"
 		}
-		body := fmt.Sprintf(`{"name":"u%d","password":%q}`, user, pass)
-		r := httptest.NewRequest(http.MethodPost, "/control/login", strings.NewReader(body))
-		r.RemoteAddr = c12Addrs[addr]
+		r := c12Request(fmt.Sprintf(`{"name":"u%d","password":%q}`, user, pass), peer, mask, h)
 		w := httptest.NewRecorder()
 		handleLogin(w, r)
 		res := w.Result()
@@ -244,7 +285,7 @@ func c12Bubble(first c12Cmd, cmds chan c12Cmd, done chan struct{}) {
 		}
 		b := &c12Block{
 			dir: dir, slots: map[int]string{}, tokIDs: map[string]int{},
-			ma: vutil.Atoi(first.f[1]), bm: vutil.Atoi(first.f[2]), ttl: vutil.Atoi(first.f[3]),
+			ma: vutil.Atoi(first.f[1]), bm: vutil.Atoi(first.f[2]), ttl: vutil.Atoi(first.f[3]), tp: vutil.Atoi(first.f[4]),
 		}
 		b.initUsers()
 		defer func() { globalContext.auth.Close() }()
@@ -310,16 +351,73 @@ func c12Gen(r *rand.Rand, emit vutil.Emit) {
 			}
 		}
 		ttl := vutil.Pick(r, []int{0, 1, 90, 3600, 3600, 86400, 90000, 2592000})
-		emit("C12.reset", vutil.Itoa(ma), vutil.Itoa(bm), vutil.Itoa(ttl))
+		tp := vutil.Pick(r, []int{0, 0, 1, 1, 2})
+		emit("C12.reset", vutil.Itoa(ma), vutil.Itoa(bm), vutil.Itoa(ttl), vutil.Itoa(tp))
+		var prefixes []netip.Prefix
+		for _, p := range c12Trusted[tp] {
+			prefixes = append(prefixes, netip.MustParsePrefix(p))
+		}
+		trusted := netutil.SliceSubnetSet(prefixes)
+
+		// client profiles: how a client (peer) presents itself; the same
+		// profile is reused so that its failures add up
+		type profile struct {
+			mask int
+			h    [4]int
+		}
+		randProfile := func() (p profile) {
+			switch r.IntN(5) {
+			case 0, 1:
+				// no proxy headers
+			case 2:
+				p.mask = 1 << r.IntN(4)
+			default:
+				p.mask = r.IntN(32)
+			}
+			for i := range p.h {
+				p.h[i] = r.IntN(len(c12Univ))
+			}
+
+			return p
+		}
+		profiles := make([]profile, len(c12Peers))
+		for i := range profiles {
+			profiles[i] = randProfile()
+			if r.IntN(4) == 0 {
+				// the header names the peer itself
+				k := c12PeerKey(i)
+				profiles[i].h = [4]int{k, k, k, k}
+			}
+		}
 
 		block := bm * 60 * sec
 		sleeps := []int{0, 1, sec / 2, sec - 1, sec, 10 * sec, 20 * sec, 30 * sec, 59 * sec, 60*sec - 1, 60 * sec, 60*sec + 1, 61 * sec,
 			block - sec, block - 1, block, block + 1, block + sec, block - 59*sec, ttl*sec - sec, ttl * sec, ttl*sec + sec, ttl * sec / 2,
 			86400 * sec, 86400*sec - ttl*sec, 43200 * sec}
-		hot := r.IntN(len(c12Addrs))
-		login := func(addr int, good bool, slot int) {
-			emit("C12.login", vutil.Itoa(addr), vutil.Itoa(c12AddrKey(addr)), vutil.B(good), vutil.Itoa(r.IntN(2)),
-				vutil.Itoa(slot))
+		hot := r.IntN(len(c12Peers))
+		login := func(peer int, good bool, slot int) {
+			p := profiles[peer]
+			if r.IntN(6) == 0 {
+				// header rotation: same peer, another story
+				p = randProfile()
+			}
+			// oracles: realIP(r) and trustedProxies.Contains(realIP(r).Unmap())
+			probe := c12Request("", peer, p.mask, p.h)
+			probe.RemoteAddr = "192.0.2.254:1"
+			hdrKey := 999
+			ip, err := realIP(probe)
+			if err != nil {
+				panic(err)
+			}
+			if ip.String() != "192.0.2.254" {
+				hdrKey = c12UnivIdx(ip.String())
+			} else {
+				ip = netip.MustParseAddr(c12Univ[c12PeerKey(peer)])
+			}
+			emit("C12.login", vutil.Itoa(peer), vutil.Itoa(c12PeerKey(peer)), vutil.Itoa(p.mask),
+				vutil.Itoa(p.h[0]), vutil.Itoa(p.h[1]), vutil.Itoa(p.h[2]), vutil.Itoa(p.h[3]),
+				vutil.Itoa(hdrKey), vutil.B(trusted.Contains(ip.Unmap())),
+				vutil.B(good), vutil.Itoa(r.IntN(2)), vutil.Itoa(slot))
 		}
 		sleep := func(d int) {
 			if d < 0 {
@@ -352,7 +450,7 @@ func c12Gen(r *rand.Rand, emit vutil.Emit) {
 			case 2:
 				// a session's life: use, expiry edge, restart, logout
 				slot := r.IntN(4)
-				login(r.IntN(len(c12Addrs)), true, slot)
+				login(r.IntN(len(c12Peers)), true, slot)
 				for i, n := 0, 2+r.IntN(6); i < n; i++ {
 					switch r.IntN(8) {
 					case 0:
@@ -374,7 +472,7 @@ func c12Gen(r *rand.Rand, emit vutil.Emit) {
 					case k < 45:
 						addr := hot
 						if r.IntN(4) == 0 {
-							addr = r.IntN(len(c12Addrs))
+							addr = r.IntN(len(c12Peers))
 						}
 						login(addr, r.IntN(100) < 22, r.IntN(4))
 					case k < 62:
